@@ -205,6 +205,8 @@ def table_of(body):
     """For a function that is one `match` on an integer / discriminant: {label: returned description | 'diverge'}"""
     out = {}
     for pr in explore(body):
+        if pr.end not in ('return', 'diverge'):
+            continue
         lab = None
         for bb, desc, l in pr.decisions:
             lab = l
